@@ -751,7 +751,7 @@ func (r *iterRun) program(steps, nDB, nTxn int) {
 
 // scripted regression programs, run before the random ones. Words:
 //
-//	c k=v ...   commit (k=- deletes, k=!v writes an already expired entry)
+//	c k=v ...   commit (k=- deletes, k=!v writes an already expired entry, k=~ an empty value)
 //	p k v | p k -            plain Set / Del          pc cf k v   plain SetCF
 //	v k ver v | v k ver -    SetVersionedEntry
 //	hold k=v ...             begin an update transaction with pending writes and keep it
@@ -770,6 +770,8 @@ var iterScripts = map[string][]string{
 	"db_rseek": {"c a=1", "c b=2", "c k=3", "scan"},
 	// pending writes on prefix-related keys
 	"pending_prefix": {"c a=1 ab=2", "hold a=5 a\x00=6 a\xff=7 ab=8", "scan"},
+	// a committed empty value, read from a memtable and from a table
+	"empty_value": {"c a=~ b=1", "scan", "rot", "fl", "scan"},
 	// expiry
 	"expired": {"c a=!1 b=2", "c b=!3 k=4", "scan", "rot", "fl", "scan"},
 }
@@ -783,6 +785,8 @@ func parseKVs(fs []string, seq *int) []wspec {
 		switch {
 		case v == "-":
 			w.del = true
+		case v == "~":
+			w.val = []byte{}
 		case strings.HasPrefix(v, "!"):
 			w.exp = 1
 			w.val = []byte("x" + v[1:])
@@ -891,11 +895,11 @@ func runIter(c *corr.Ctx) error {
 		}
 		return nil
 	}
-	nDB, nTxn := 8, 10
-	for _, name := range []string{"tombstone", "imm_tie", "reverse_versions", "db_cf", "db_plain", "db_rseek", "pending_prefix", "expired"} {
+	nDB, nTxn := 6, 8
+	for _, name := range []string{"tombstone", "imm_tie", "reverse_versions", "db_cf", "db_plain", "db_rseek", "pending_prefix", "expired", "empty_value"} {
 		runEpisode(c, episode{Seed: 7, Script: name, NDB: nDB, NTxn: nTxn})
 	}
-	n := c.Scale(10, 400)
+	n := c.Scale(8, 300)
 	for i := 0; i < n; i++ {
 		ep := episode{Seed: c.Rng.Int63(), Steps: 30 + c.Rng.Intn(30), NDB: nDB, NTxn: nTxn}
 		switch x := c.Rng.Intn(10); {
